@@ -768,6 +768,8 @@ func runC20(c *Ctx) {
 					c.Anchor("C20.4", fname(root))
 					if name == "AllocateListener" || name == "AllocateConn" {
 						c.OK("C20.4", fname(fn), "reuseport.Control", w.instrPos(in), "TCP listener/dialer path (RFC 6062 needs to share the relayed address between listener and outgoing connections)")
+					} else if ok, why := reusePortBehindFlag(w, fn, in); ok {
+						c.OK("C20.4", fname(fn), "reuseport.Control", w.instrPos(in), why)
 					} else {
 						c.Bad("C20.4", fname(fn), "reuseport.Control", w.instrPos(in), "SO_REUSEPORT is enabled on "+name+": a UDP relay port still held by a live allocation can be bound a second time, so two allocations share a relay port")
 					}
@@ -989,101 +991,8 @@ func ruleRequestedPortsNotInvented(c *Ctx, rule string) {
 func ruleRelaySocketFresh(c *Ctx, rule string) {
 	w := c.W
 	c.Rule(rule, "relay sockets are fresh: every value stored into Allocation.relayPacketConn / Allocation.relayListener originates (helper results, phis, locals) from a call of Manager.allocatePacketConn / allocateListener only", 2)
-	gens := map[*types.Var]bool{
-		w.Field("allocation", "Manager", "allocatePacketConn"): true,
-		w.Field("allocation", "Manager", "allocateListener"):   true,
-	}
-	var origins func(v ssa.Value, d int, seen map[ssa.Value]bool, out map[string]bool)
-	origins = func(v ssa.Value, d int, seen map[ssa.Value]bool, out map[string]bool) {
-		v = stripIface(v)
-		if seen[v] {
-			return
-		}
-		seen[v] = true
-		if d > 8 {
-			out["too deep"] = true
-			return
-		}
-		if isNilConst(v) {
-			return
-		}
-		switch x := v.(type) {
-		case *ssa.Phi:
-			for _, e := range x.Edges {
-				origins(e, d+1, seen, out)
-			}
-			return
-		case *ssa.Call, *ssa.Extract:
-			call, idx := callOf(v)
-			if call == nil {
-				break
-			}
-			if idx < 0 {
-				idx = 0
-			}
-			if h := call.Call.StaticCallee(); h != nil {
-				if w.IsMod[h] && len(h.Blocks) > 0 {
-					for _, r := range returnsOf(h) {
-						if idx < len(r.Results) {
-							origins(r.Results[idx], d+1, seen, out)
-						}
-					}
-					return
-				}
-				out["the result of "+h.String()] = true
-				return
-			}
-			if _, f, isL := fieldLoad(call.Call.Value); isL && gens[f] {
-				out["generator"] = true
-				return
-			}
-			out["a dynamic call"] = true
-			return
-		case *ssa.UnOp:
-			if x.Op == token.MUL {
-				if al, isAl := x.X.(*ssa.Alloc); isAl {
-					for _, st := range w.stores[w.locKey(al)] {
-						origins(st.Val, d+1, seen, out)
-					}
-					return
-				}
-				if _, f, isL := fieldLoad(x); isL {
-					// a field of a local struct value (the helper's result struct): what was put there
-					if fa, isFA := x.X.(*ssa.FieldAddr); isFA {
-						if al, path := allocBase(fa); al != nil && !w.escapesToWriters(al) {
-							if vals, ok := w.flow().localPathStores(al, path); ok && len(vals) > 0 {
-								for _, sv := range vals {
-									origins(sv, d+1, seen, out)
-								}
-								return
-							}
-						}
-					}
-					out["field "+fieldOwnerName(w, f)+"."+f.Name()] = true
-					return
-				}
-			}
-		case *ssa.Field:
-			if st, ok := x.X.Type().Underlying().(*types.Struct); ok {
-				if vals, ok2 := w.flow().structValueField(x.X, []string{st.Field(x.Field).Name()}, 0); ok2 && len(vals) > 0 {
-					for _, sv := range vals {
-						origins(sv, d+1, seen, out)
-					}
-					return
-				}
-			}
-		case *ssa.Parameter:
-			sites := w.callsTo(x.Parent())
-			if len(sites) > 0 {
-				for _, cs := range sites {
-					if i := paramIndex(x); i >= 0 && i < len(cs.Common().Args) {
-						origins(cs.Common().Args[i], d+1, seen, out)
-					}
-				}
-				return
-			}
-		}
-		out[w.desc(v)] = true
+	origins := func(v ssa.Value, d int, seen map[ssa.Value]bool, out map[string]bool) {
+		w.relaySocketOrigins(v, d, seen, out)
 	}
 	for _, fname2 := range []string{"relayPacketConn", "relayListener"} {
 		fld := w.Field("allocation", "Allocation", fname2)
@@ -1121,4 +1030,192 @@ func ruleRelaySocketFresh(c *Ctx, rule string) {
 			c.Bad(rule, "-", fname2, "-", "Allocation."+fname2+" is never assigned: anchor gone")
 		}
 	}
+}
+
+// reusePortBehindFlag: the reference to reuseport.Control sits in a shared helper on the true
+// edge of one of its bool parameters, and every call passes that parameter a constant: true
+// only from AllocateListener / AllocateConn, false from everywhere else.
+func reusePortBehindFlag(w *World, fn *ssa.Function, in ssa.Instruction) (bool, string) {
+	var flag *ssa.Parameter
+	for _, f := range w.factsAt(in) {
+		if f.Op == "true" && f.Truth {
+			if p, ok := f.X.(*ssa.Parameter); ok && p.Parent() == fn && p.Type().String() == "bool" {
+				flag = p
+			}
+		}
+	}
+	if flag == nil {
+		return false, ""
+	}
+	sites := w.callsTo(fn)
+	if len(sites) == 0 {
+		return false, ""
+	}
+	nTrue := 0
+	for _, cs := range sites {
+		i := paramIndex(flag)
+		if i < 0 || i >= len(cs.Common().Args) {
+			return false, ""
+		}
+		k, isC := cs.Common().Args[i].(*ssa.Const)
+		if !isC || k.Value == nil {
+			return false, ""
+		}
+		if k.Value.String() == "true" {
+			nTrue++
+			if n := rootFn(cs.Parent()).Name(); n != "AllocateListener" && n != "AllocateConn" {
+				return false, ""
+			}
+		}
+	}
+	return true, fmt.Sprintf("behind the helper's flag %s: %d call(s), true only from the TCP listener/dialer paths (%d), false from the UDP paths", flag.Name(), len(sites), nTrue)
+}
+
+// takenOut: ld reads field address fa while a mutex is held for writing, and later in the same
+// block — before any unlock — nil is stored to that same field of that same object.
+func takenOut(w *World, ld *ssa.UnOp, fa *ssa.FieldAddr) bool {
+	held := w.lockInfo().mustAt(ld)
+	hasW := false
+	for cls := range held {
+		if strings.HasSuffix(cls, "/W") {
+			hasW = true
+		}
+	}
+	if !hasW {
+		return false
+	}
+	b := ld.Block()
+	for i := indexIn(ld) + 1; i < len(b.Instrs); i++ {
+		switch x := b.Instrs[i].(type) {
+		case ssa.CallInstruction:
+			if lo := w.lockOpOf(x.Common()); lo != nil && (lo.op == "Unlock" || lo.op == "RUnlock") {
+				return false
+			}
+		case *ssa.Store:
+			if fa2, ok := x.Addr.(*ssa.FieldAddr); ok && fa2.Field == fa.Field && (fa2.X == fa.X || w.sameKey(fa2.X, fa.X)) && isNilConst(stripIface(x.Val)) {
+				return true
+			}
+		}
+	}
+	return false
+}
+
+// relaySocketOrigins: where a relay socket / listener value comes from: "generator" for a call
+// of Manager.allocatePacketConn / allocateListener, anything else by description.
+func (w *World) relaySocketOrigins(v ssa.Value, d int, seen map[ssa.Value]bool, out map[string]bool) {
+	gens := map[*types.Var]bool{
+		w.Field("allocation", "Manager", "allocatePacketConn"): true,
+		w.Field("allocation", "Manager", "allocateListener"):   true,
+	}
+	origins := w.relaySocketOrigins
+
+	v = stripIface(v)
+	if seen[v] {
+		return
+	}
+	seen[v] = true
+	if d > 8 {
+		out["too deep"] = true
+		return
+	}
+	if isNilConst(v) {
+		return
+	}
+	switch x := v.(type) {
+	case *ssa.Phi:
+		for _, e := range x.Edges {
+			origins(e, d+1, seen, out)
+		}
+		return
+	case *ssa.Call, *ssa.Extract:
+		call, idx := callOf(v)
+		if call == nil {
+			break
+		}
+		if idx < 0 {
+			idx = 0
+		}
+		if h := call.Call.StaticCallee(); h != nil {
+			if w.IsMod[h] && len(h.Blocks) > 0 {
+				for _, r := range returnsOf(h) {
+					if idx < len(r.Results) {
+						origins(r.Results[idx], d+1, seen, out)
+					}
+				}
+				return
+			}
+			out["the result of "+h.String()] = true
+			return
+		}
+		if _, f, isL := fieldLoad(call.Call.Value); isL && gens[f] {
+			out["generator"] = true
+			return
+		}
+		out["a dynamic call"] = true
+		return
+	case *ssa.UnOp:
+		if x.Op == token.MUL {
+			if al, isAl := x.X.(*ssa.Alloc); isAl {
+				for _, st := range w.stores[w.locKey(al)] {
+					origins(st.Val, d+1, seen, out)
+				}
+				return
+			}
+			if _, f, isL := fieldLoad(x); isL {
+				// a field of a local struct value (the helper's result struct): what was put there
+				if fa, isFA := x.X.(*ssa.FieldAddr); isFA {
+					if al, path := allocBase(fa); al != nil && !w.escapesToWriters(al) {
+						if vals, ok := w.flow().localPathStores(al, path); ok && len(vals) > 0 {
+							for _, sv := range vals {
+								origins(sv, d+1, seen, out)
+							}
+							return
+						}
+					}
+				}
+				// taken out of where it was kept: read under a write lock and the field set
+				// to nil in the same block before any unlock — no second request can get it.
+				// Where it was put there from is then what counts.
+				if fa, isFA := x.X.(*ssa.FieldAddr); isFA && takenOut(w, x, fa) {
+					n0 := len(out)
+					for _, fn2 := range w.ModFns {
+						w.eachInstr(fn2, func(i2 ssa.Instruction) {
+							st, ok := i2.(*ssa.Store)
+							if !ok {
+								return
+							}
+							if fa2, ok2 := st.Addr.(*ssa.FieldAddr); ok2 && fieldOf(fa2) == f && !isNilConst(stripIface(st.Val)) {
+								origins(st.Val, d+1, seen, out)
+							}
+						})
+					}
+					if len(out) > n0 || out["generator"] {
+						return
+					}
+				}
+				out["field "+fieldOwnerName(w, f)+"."+f.Name()] = true
+				return
+			}
+		}
+	case *ssa.Field:
+		if st, ok := x.X.Type().Underlying().(*types.Struct); ok {
+			if vals, ok2 := w.flow().structValueField(x.X, []string{st.Field(x.Field).Name()}, 0); ok2 && len(vals) > 0 {
+				for _, sv := range vals {
+					origins(sv, d+1, seen, out)
+				}
+				return
+			}
+		}
+	case *ssa.Parameter:
+		sites := w.callsTo(x.Parent())
+		if len(sites) > 0 {
+			for _, cs := range sites {
+				if i := paramIndex(x); i >= 0 && i < len(cs.Common().Args) {
+					origins(cs.Common().Args[i], d+1, seen, out)
+				}
+			}
+			return
+		}
+	}
+	out[w.desc(v)] = true
 }
